@@ -1,5 +1,6 @@
 #![allow(dead_code)]
 mod consts;
+mod d1;
 mod d3;
 mod nor;
 mod util;
@@ -33,6 +34,14 @@ fn main() {
     match args.first().map(|s| s.as_str()) {
         Some("consts") => consts::run(),
         Some("d3") => run("d3", &d3::gen, &mut d3::exec),
+        Some("d1") => {
+            let mut ex = d1::Exec::new();
+            run("d1", &d1::gen, &mut |l, o| ex.line(l, o))
+        }
+        Some("d1f") => {
+            let mut ex = d1::Exec::new();
+            run("d1f", &d1::gen_faults, &mut |l, o| ex.line(l, o))
+        }
         _ => {
             eprintln!("usage: fh <consts|d3|...> [--seed n] [--tier quick|thorough] [--out dir] [--in scen.txt]");
             std::process::exit(2);
